@@ -30,11 +30,27 @@ class Rec(object):
         return obj
 
     def label(self, obj):
+        if obj is None:
+            return ('nil', [0, 3])
         return self.labels.get(id(obj), ('alien', [9, 9]))
 
 
 class MarkedError(Exception):
     pass
+
+
+def make_resp(rec_, text):
+    """the returned response object is a werkzeug Response, a bare BaseResponse or a *returned* HTTPException
+    (all three are "a Response" for the framework: render must be skipped alike)"""
+    from clastic import Response
+    from werkzeug.wrappers import BaseResponse
+    kind = rec_.get('_resp_kind', 0)
+    if kind == 1:
+        return BaseResponse(text)
+    if kind == 2:
+        from clastic.errors import Gone
+        return Gone(text)
+    return Response(text)
 
 
 def make_exc(rec_, text):
@@ -77,14 +93,14 @@ def build(rec_, R):
                 R.events.append(['raise', f, 'exc', f])
                 raise e
             if kind == 'short':
-                r = R.mark(Response('short %r' % (f,)), 'resp', f)
+                r = R.mark(make_resp(rec_, 'short %r' % (f,)), 'resp', f)
                 R.events.append(['return', f, 'resp', f])
                 return r
             try:
                 ret = next()
             except Exception as e:  # noqa
                 if kind == 'swallow':
-                    r = R.mark(Response('swallowed %r' % (f,)), 'resp', f)
+                    r = R.mark(make_resp(rec_, 'swallowed %r' % (f,)), 'resp', f)
                     R.events.append(['return', f, 'resp', f])
                     return r
                 lk, lb = R.label(e)
@@ -135,6 +151,15 @@ def build(rec_, R):
         inst = base()
         for ph in m['ph']:
             setattr(inst, PHASE[ph], make_fn((lvl, i), ph).__get__(inst, base))
+        if rec_.get('_provides') and 2 in m['ph'] and (lvl + i) % 2 == 0:
+            # a providing endpoint middleware: declares endpoint_provides and hands the value to next()
+            name = 'eptok_%d_%d' % (lvl, i)
+            inst.endpoint_provides = (name,)
+            plain = make_fn((lvl, i), 2)
+
+            def providing(self, next, _plain=plain, _name=name):
+                return _plain(self, lambda: next(**{_name: 'tok'}))
+            inst.endpoint = providing.__get__(inst, base)
         return inst
 
     outer = [make_mw(m, 1, i + 1) for i, m in enumerate(rec_['outer'])]
@@ -150,7 +175,7 @@ def build(rec_, R):
             R.events.append(['raise', EP, 'exc', EP])
             raise e
         if rec_['epKind'] == 'response':
-            r = R.mark(Response('endpoint response'), 'resp', EP)
+            r = R.mark(make_resp(rec_, 'endpoint response'), 'resp', EP)
             R.events.append(['return', EP, 'resp', EP])
             return r
         c = R.mark({'ctx': True}, 'ctx', EP)
@@ -163,6 +188,9 @@ def build(rec_, R):
             e = R.mark(make_exc(rec_, 'render'), 'exc', RN)
             R.events.append(['raise', RN, 'exc', RN])
             raise e
+        if rec_.get('rnKind') == 'none':
+            R.events.append(['return', RN, 'nil', RN])
+            return None
         r = R.mark(Response('rendered'), 'resp', RN)
         R.events.append(['return', RN, 'resp', RN])
         return r
@@ -176,11 +204,11 @@ def build(rec_, R):
     return app, '/sub/x'
 
 
-def run_one(rec_, direct=False, share=False, http_exc=False):
+def run_one(rec_, direct=False, share=False, http_exc=False, resp_kind=0, provides=False):
     from werkzeug.test import Client
     from werkzeug.wrappers import BaseResponse
     R = Rec()
-    rec_ = dict(rec_, _direct=direct, _share=share, _http_exc=http_exc)
+    rec_ = dict(rec_, _direct=direct, _share=share, _http_exc=http_exc, _resp_kind=resp_kind, _provides=provides)
     app, path = build(rec_, R)
     cl = Client(app, BaseResponse)
     resp = cl.get(path)
@@ -238,7 +266,7 @@ def check(run):
     seen = set()
     uniq = []
     for b in behaviours:
-        key = json.dumps([b['outer'], b['inner'], b['route'], b['plan'], b['epKind']], sort_keys=True)
+        key = json.dumps([b['outer'], b['inner'], b['route'], b['plan'], b['epKind'], b.get('rnKind')], sort_keys=True)
         if key not in seen:
             seen.add(key)
             uniq.append((key, b))
@@ -246,20 +274,20 @@ def check(run):
     for n, (key, b) in enumerate(uniq):
         exp = expected_events(b)
         direct = (n % 2 == 0)
-        share, http_exc = (n % 3 == 1), (n % 4 >= 2)
-        obs, status = run_one(b, direct=direct, share=share, http_exc=http_exc)
+        share, http_exc, resp_kind, provides = (n % 3 == 1), (n % 4 >= 2), (n // 2) % 3, (n % 5 < 2)
+        obs, status = run_one(b, direct=direct, share=share, http_exc=http_exc, resp_kind=resp_kind, provides=provides)
         run.evaluations += 1
         if len(b['chain']) >= 2 or b['plan']['k'] != 'none':
             run.nontrivial.add(key)
         d = first_diff(exp, obs)
-        final_ok = (status == 200) == (b['final']['k'] == 'resp')
+        final_ok = (status in (200, 410)) == (b['final']['k'] == 'resp')
         if d is None and final_ok:
             run.traces += 1
         elif d is not None:
             k, a, bb = d
             run.violation(classify(exp, obs, k, a, bb),
                           'event %d: spec %r, implementation %r (plan %r)' % (k, a, bb, b['plan']),
-                          {'leg': 'L2', 'behaviour': b, 'observed': obs, 'direct': direct, 'share': share, 'http_exc': http_exc,
+                          {'leg': 'L2', 'behaviour': b, 'observed': obs, 'direct': direct, 'share': share, 'http_exc': http_exc, 'resp_kind': resp_kind, 'provides': provides,
                            'first_diff': [k, a, bb]})
         else:
             run.violation('final-status', 'final value %r but status %s' % (b['final'], status),
@@ -273,7 +301,8 @@ def replay(run, path):
     with open(path) as f:
         rp = json.load(f)
     c = rp['case']
-    obs, status = run_one(c['behaviour'], direct=c.get('direct', False), share=c.get('share', False), http_exc=c.get('http_exc', False))
+    obs, status = run_one(c['behaviour'], direct=c.get('direct', False), share=c.get('share', False), http_exc=c.get('http_exc', False),
+                          resp_kind=c.get('resp_kind', 0), provides=c.get('provides', False))
     exp = expected_events(c['behaviour'])
     d = first_diff(exp, obs)
     print('expected:', exp)
